@@ -253,7 +253,7 @@ func Run(cfg fw.Config, rec *fw.Rec) {
 		return
 	}
 	rec.Rule = "two-node machines whose action and guards are hostile programs over the permanent keys (delete, overwrite, keep-only, copy-over, push, return {} / a fresh object / null / a number, fail, reject) run from states with 0-3 permanent bindings (scalar, nested, array, null, false values) and 0-3 ordinary ones, native (two failure modes; and a variant that mutates the bindings it is given in place, as core's Bindings.Remove / Extend / DeleteExcept do) and ECMAScript; plus random multi-node machines; for every stride the permanent bindings present before must be present and equal after, unless the node's action returned null (recorded, not judged); non-trivial = stride checked with >= 1 permanent binding; distinct by canonical (spec,state)"
-	rec.Required = []string{"strides_with_permanent_checked", "after_failing_action", "after_completed_action", "guard_rejected_then_next_branch", "guard_accepted", "render_ecma", "render_native", "render_native-inplace", "structured_permanent_value", "unjudged_action_returned_null"}
+	rec.Required = []string{"strides_with_permanent_checked", "after_failing_action", "after_completed_action", "guard_rejected_then_next_branch", "guard_accepted", "render_ecma", "render_native", "render_native-inplace", "structured_permanent_value", "unjudged_action_returned_null", "native_walks_under_a_cancelled_context"}
 	n := cfg.Pick(60000, 3000000)
 	fw.Parallel(cfg.Workers, n, func(w, i int) {
 		r := cfg.Rng("c18", i)
@@ -325,11 +325,21 @@ func Run(cfg fw.Config, rec *fw.Rec) {
 		if i%4 == 3 {
 			names := a.NodeNames()
 			for k := r.Intn(4); k > 0; k-- {
-				msgs = append(msgs, gen.GenMessage(r, u.Next("m"), names))
+				msgs = append(msgs, gen.GenAnyMessage(r, u.Next("m"), names))
 			}
 		}
+		// Native actions take no notice of the context; a caller whose context is already
+		// done (a request that was given up) gets the same guarantees.
+		ctx := context.Background()
+		if render != "ecma" && i%5 == 2 {
+			c, cancel := context.WithCancel(ctx)
+			cancel()
+			ctx = c
+			replay["context"] = "already cancelled"
+			rec.Bucket("native_walks_under_a_cancelled_context")
+		}
 		var walked *core.Walked
-		if rec.Guard("C18", replay, func() { walked, err = spec.Walk(context.Background(), st, msgs, &core.Control{Limit: 12}, nil) }) {
+		if rec.Guard("C18", replay, func() { walked, err = spec.Walk(ctx, st, msgs, &core.Control{Limit: 12}, nil) }) {
 			return
 		}
 		rec.Eval(1)
